@@ -331,12 +331,78 @@ def _judge(pipe, ak, ab, excused):
     return None
 
 
-def classify(ctx, variant, devs, name):
+def _allowed_after(full):
+    """Known-good / intended revisions once the action has COMPLETED (the spec's End effects on the history)."""
+    h = full["h"]
+    a = full["act"]
+    d = full["d"]
+    gk, gb = set(h["goodk"]), set(h["goodb"])
+    tk, tb = h["trialk"], h["trialb"]
+    if a["name"] == "Mark":
+        gk.add(full["boot"]["rk"])
+        gb.add(full["boot"]["rb"])
+        tk = tb = 0
+    elif a["name"] == "UndoK" or (a["name"] == "SetNextK" and a["arg"] == d["kcur"]):
+        tk = 0
+    elif a["name"] == "UndoB" or (a["name"] == "SetNextB" and a["arg"] == d["bcur"]):
+        tb = 0
+    return gk, gb, gk | ({tk} - {0}), gb | ({tb} - {0})
+
+
+def continuation_cases(variant, cases, events):
+    """One pipe case per act case whose real call returned: clean reboot from the REAL final state, real initramfs,
+    real MarkBootSuccessful (and the same with every boot of a not-known-good revision failing)."""
+    last, done = {}, set()
+    for e in events:
+        if e.get("ev") == "W":
+            last[e["case"]] = _norm(e["st"])
+        elif e.get("ev") == "End":
+            done.add(e["case"])
+    out = []
+    for c in cases:
+        if c["kind"] != "act" or c["id"] not in done:
+            continue
+        full = c["full"]
+        gk, gb, _, _ = _allowed_after(full)
+        out.append({"kind": "pipe", "variant": variant, "d": last.get(c["id"], _norm(full["d"])), "pres": full["pres"],
+                    "start": "fw", "cmdtrying": False, "rk": 0, "goodk": sorted(gk), "goodb": sorted(gb),
+                    "reboot": True, "mark": True, "_of": c["id"]})
+    return out
+
+
+def judge_continuation(full, pipe):
+    """-> None | (clause, text): statement on reboot [-> MarkBootSuccessful] after the completed real action."""
+    gk, gb, ak, ab = _allowed_after(full)
+    j = _judge(pipe, ak, ab, excused=False)
+    if j:
+        return j
+    a = full["act"]
+    for n, p in sorted(pipe.items()):
+        what = "every boot attempt works" if n == 1 else "boots of revisions under trial fail"
+        if p["end"] != "ok":
+            continue
+        b = p["boots"][-1]
+        f = p["final"]
+        okk, okb = (ak, ab) if n == 1 else (gk, gb)
+        if p.get("mark_err"):
+            return "GoodOnlyAfterMark", "MarkBootSuccessful fails after the reboot: %s (%s)" % (p["mark_err"], what)
+        if f["kcur"] not in okk or f["bcur"] not in okb:
+            return "GoodOnlyAfterMark", ("after reboot + MarkBootSuccessful the fallback pointers are kernel %d base %d; known-good or "
+                                         "intended: kernel %s base %s (%s)" % (f["kcur"], f["bcur"], sorted(okk), sorted(okb), what))
+        if a["name"] == "UndoK" and (b["rk"] != a["arg"] or f["kcur"] != a["arg"]):
+            return "FallbackWorks", "undo to kernel %d, but the device boots %d and commits %d (%s)" % (a["arg"], b["rk"], f["kcur"], what)
+        if a["name"] == "UndoB" and (b["rb"] != a["arg"] or f["bcur"] != a["arg"]):
+            return "FallbackWorks", "undo to base %d, but the device boots %d and commits %d (%s)" % (a["arg"], b["rb"], f["bcur"], what)
+    return None
+
+
+def classify(ctx, variant, devs, name, cont=None):
     """Statement oracle for deviations (FRAMEWORK soundness rule 1): a real step that differs from the spec is a
     VIOLATION only if the real prefix / resulting states break the property statement when the REAL initramfs code
     (+ firmware table) boots from them; otherwise it is an unexplained deviation (spec or harness to be triaged)."""
     violations, unexplained = [], []
     pipes = []          # (deviation, label, case dict)
+    cont_broken = {}
     seen = set()
     uniq = []
     for dv in devs:
@@ -365,20 +431,24 @@ def classify(ctx, variant, devs, name):
             for k, (label, st) in enumerate(states[1:], 1):
                 pipes.append((dv, k, label, {"kind": "pipe", "variant": variant, "d": st, "pres": full["pres"], "start": "fw",
                                              "cmdtrying": False, "rk": 0, "goodk": sorted(gk), "goodb": sorted(gb)}))
-            if len(states) == 1:
+            cb = (cont or {}).get(dv.case.get("id"))
+            if cb and cb["case"] is dv.case:
+                cont_broken[dv.ident()] = (dv, len(dv.real), "continuation", cb["pipe_case"], cb["judgement"], cb["pipe"])
+            elif len(states) == 1:
                 unexplained.append(dv)
         else:
             b = full["boot"]
             pipes.append((dv, 0, "initramfs entry", {"kind": "pipe", "variant": variant, "d": _norm(full["d"]), "pres": full["pres"],
                                                      "start": b["phase"], "cmdtrying": b["cmdtrying"], "rk": b["rk"],
                                                      "goodk": sorted(gk), "goodb": sorted(gb)}))
-    if pipes:
-        pcs = [p[3] for p in pipes]
-        out = run_driver(ctx, pcs, "pipe_" + name, procs=2)
+    if pipes or cont_broken:
         res = {}
-        for e in out:
-            if e.get("ev") == "Pipe":
-                res.setdefault(e["case"], {})[e["pass"]] = e
+        if pipes:
+            pcs = [p[3] for p in pipes]
+            out = run_driver(ctx, pcs, "pipe_" + name, procs=2)
+            for e in out:
+                if e.get("ev") == "Pipe":
+                    res.setdefault(e["case"], {})[e["pass"]] = e
         broken = {}
         for (dv, k, label, pc) in pipes:
             full = dv.case["full"]
@@ -386,9 +456,11 @@ def classify(ctx, variant, devs, name):
             j = _judge(res.get(pc["id"], {}), ak, ab, excused=bool(full["h"].get("win")))
             if j and dv.ident() not in broken:
                 broken[dv.ident()] = (dv, k, label, pc, j, res.get(pc["id"]))
+        for k_, v_ in cont_broken.items():
+            broken.setdefault(k_, v_)
         groups = {}
         for dv in uniq:
-            if dv.kind == "inuse" or (dv.case["kind"] == "act" and not dv.real and dv.kind != "inuse"):
+            if dv.kind == "inuse" or (dv.case["kind"] == "act" and not dv.real and dv.ident() not in broken):
                 continue
             hit = broken.get(dv.ident())
             if not hit:
@@ -397,7 +469,12 @@ def classify(ctx, variant, devs, name):
                 continue
             _, k, label, pc, (clause, text), pr = hit
             full = dv.case["full"]
-            if dv.case["kind"] == "act":
+            if dv.case["kind"] == "act" and label == "continuation":
+                gkey = "%s %s real-writes=%s then reboot+mark breaks %s" % (variant, full["act"]["name"],
+                                                                          ",".join(o for o, _ in dv.real) or "none", clause)
+                desc = ("%s: %s. The real call leaves %s; clean reboot, real initramfs code and real MarkBootSuccessful from "
+                        "there: %s. Statement clause: %s." % (case_key(dv.case), dv.why, fmt_disk(pc["d"]), text, clause))
+            elif dv.case["kind"] == "act":
                 gkey = "%s %s real-writes=%s power-loss@%d breaks %s" % (variant, full["act"]["name"],
                                                                         ",".join(o for o, _ in dv.real), k, clause)
                 desc = ("%s: %s. Power loss %s leaves the REAL state %s; booting it with the real initramfs code: %s. "
@@ -473,8 +550,43 @@ def check_cases(ctx, variant, cases, name, procs=1, trace=True):
                     dv = Deviation(c, "probe", "initramfs cases of this configuration deviate; direct statement check")
                     if dv.ident() not in have:
                         devs.append(dv)
-    v, un = classify(ctx, variant, devs, name) if devs else ([], [])
-    return {"violations": v, "unexplained": un, "ncases": ncases, "nlines": nlines, "events": events, "ndev": len(devs)}
+    # continuation oracle on EVERY completed act case: what the device does after the real call (reboot -> real initramfs
+    # -> real MarkBootSuccessful) must satisfy the statement w.r.t. the history of that case
+    cont = {}
+    ccases = continuation_cases(variant, cases, events)
+    byid = {c["id"]: c for c in cases}
+    if ccases:
+        of = [pc.pop("_of") for pc in ccases]
+        out = run_driver(ctx, ccases, "cont_" + name, procs=procs)
+        res = {}
+        for e in out:
+            if e.get("ev") == "Pipe":
+                res.setdefault(e["case"], {})[e["pass"]] = e
+        for pc, cid in zip(ccases, of):
+            c = byid[cid]
+            j = judge_continuation(c["full"], res.get(pc["id"], {}))
+            if j:
+                cont[cid] = {"case": c, "pipe_case": pc, "judgement": j, "pipe": res.get(pc["id"])}
+    v, un = classify(ctx, variant, devs, name, cont=cont) if devs else ([], [])
+    # a continuation that breaks the statement although the real call itself followed the spec
+    devids = {id(dv.case) for dv in devs}
+    groups = {}
+    for cid, cb in cont.items():
+        if id(cb["case"]) in devids:
+            continue
+        full = cb["case"]["full"]
+        clause, text = cb["judgement"]
+        g = groups.setdefault("%s %s then reboot+mark breaks %s" % (variant, full["act"]["name"], clause),
+                              {"n": 0, "desc": "%s: the real call leaves %s; clean reboot, real initramfs code and real MarkBootSuccessful "
+                                               "from there: %s. Statement clause: %s." % (case_key(cb["case"]), fmt_disk(cb["pipe_case"]["d"]), text, clause),
+                               "replay": {"case": cb["case"], "pipeline": cb["pipe"]}})
+        g["n"] += 1
+    for gkey, g in sorted(groups.items()):
+        vv = Violation(key=gkey, desc="%s [%d reachable (state, action) cases of this kind]" % (g["desc"], g["n"]), replay=g["replay"])
+        vv.count = g["n"]
+        v.append(vv)
+    return {"violations": v, "unexplained": un, "ncases": ncases, "nlines": nlines, "events": events, "ndev": len(devs),
+            "ncont": len(ccases)}
 
 
 # ------------------------------------------------------------------ grub.cfg
